@@ -481,6 +481,14 @@ func avcCompareSPS(tr *nalgen.AVCSPSTree, info nalgen.AVCSPSBits, got *avc.SPS, 
 	return avcFieldFail("avc.SPS", &want, &g, ctx)
 }
 
+// avcSPSFeature names rarely used syntax of an SPS (part of the key when the parser rejects the SPS).
+func avcSPSFeature(tr *nalgen.AVCSPSTree) string {
+	if tr.S.VUI != nil && tr.AspectRatioInfoPresent && tr.AspectRatioIDC == 0 {
+		return " with aspect_ratio_idc 0"
+	}
+	return ""
+}
+
 func checkAVCSPS(c avcSPSCase) *harness.Fail {
 	tr := c.Tree
 	nalu, info := nalgen.SerializeAVCSPS(&tr)
@@ -488,7 +496,7 @@ func checkAVCSPS(c avcSPSCase) *harness.Fail {
 		ctx := fmt.Sprintf("parseVUIBeyondAspectRatio=%v, nalu %x", full, nalu)
 		got, err := avc.ParseSPSNALUnit(nalu, full)
 		if err != nil {
-			return harness.Failf("C15|avc.ParseSPSNALUnit|error on valid SPS", "%v (%s)", err, ctx)
+			return harness.Failf("C15|avc.ParseSPSNALUnit|error on valid SPS"+avcSPSFeature(&tr), "%v (%s)", err, ctx)
 		}
 		if f := avcCompareSPS(&tr, info, got, full, ctx); f != nil {
 			return f
